@@ -14,7 +14,7 @@ mean anything for a whole screen is that a map only changes through its own `__s
     __getitem__         the bound command, None for an unbound key; nothing changes
     __setitem__         binds exactly that key; every other key keeps its binding
     __delitem__         unbinds exactly that key (KeyError if unbound); every other key keeps its binding
-    clear_command       unbinds exactly the keys bound to that command
+    clear_command       unbinds exactly the keys bound to that command; every other key keeps its binding
 
 Model: `_command` is a dict with SYMBOLIC keys (pyvc/fmap.py): key names and commands are opaque individuals that
 contain the str constants (`lit=(str,)`; a Command member is the str it equals, DESIGN 3.2).  "Every other key" is
@@ -231,3 +231,47 @@ class cm_copy:
             yield "nothing-else-carried-over", set(result.fields) == {"_command"}
         yield "original-untouched", both(_entry_dict_untouched(), s._command.v is old._command.v)
 
+
+
+def _cleared(m1, m0, command, k):
+    """k is bound in m1 iff it was bound in m0 to something else than `command`; then to the same command."""
+    a, b = mapval(m1), mapval(m0)
+    keep = both(b.has(k), neg(eq(b.val(k), command)))
+    return both(mk_bool(V._zb(a.has(k)) == V._zb(keep)), implies(keep, eq(a.val(k), b.val(k))))
+
+
+@contract(CM + "CommandMap.clear_command", property="C08", replayable=False)
+class cm_clear_command:
+    self_shape = CMAP
+    params = dict(command=CMDV)
+    raises = ()
+
+    def ensures(old, s, a, result):
+        K = arb_key()
+        yield "unbinds-exactly-the-keys-bound-to-that-command", _cleared(s._command, old._command, a.command, K)
+
+
+def _clear_inv(v):
+    """Entry j of the map held at entry is still there unless it is one of the selected entries (bound to `command`)
+    that the loop has passed; nothing else got in; the stored commands are unchanged."""
+    b = mapval(v.old.self._command)
+    c = mapval(v.self._command)
+    dk = v.dk.seq if hasattr(v.dk, "seq") else v.dk
+    fo = getattr(dk, "filter_of", None)  # (base sequence, index map, its inverse, predicate) of a filter comprehension
+    if fo is None:
+        yield "the-keys-to-delete-are-selected-by-a-filter", False
+        return
+    _base, zi, zp, _pred = fo
+    K = arb_key()
+    n0 = b.n
+
+    def entry(j):
+        kj = b.key(j)
+        gone = both(eq(b.val(kj), v.command), zp(j) < v.i_)
+        return both(mk_bool(V._zb(c.has(kj)) == V._zb(neg(gone))), implies(c.has(kj), eq(c.val(kj), b.val(kj))))
+
+    yield "entries-of-the-old-map", forall(0, n0, entry)
+    yield "nothing-else-bound", implies(neg(b.has(K)), neg(c.has(K)))
+
+
+cm_clear_command.loops = {0: Loop(invariant=_clear_inv)}
